@@ -213,6 +213,39 @@ Section I.
           -- destruct (aget (im_name m) es) eqn:E; [eapply aget_clean; eauto|constructor].
           -- constructor; [eexists; reflexivity|constructor].
   Qed.
+  (* ---- search.Index.AddRepo ---- *)
+  Lemma indstr_reads_clean e : clean e -> exists n, indstr_reads e = Ok n.
+  Proof. intros [m ->]. unfold indstr_reads. simpl. eexists. reflexivity. Qed.
+
+  Lemma add_all_ok fname ref : Forall clean ref -> no_panic (add_all fname ref).
+  Proof.
+    induction 1 as [|e t He Ht IH]; simpl; auto.
+    destruct (entry_version_clean e He) as [v ->]. simpl.
+    destruct (indstr_reads_clean e He) as [n ->]. simpl.
+    destruct (add_all fname t); simpl in *; auto.
+  Qed.
+
+  Lemma add_repo_loop_ok nil_slice all rname es :
+    clean_entries es -> no_panic (add_repo_loop true nil_slice all rname es).
+  Proof.
+    induction 1 as [|[name ref] t Hc Ht IH]; simpl; auto. simpl in Hc.
+    match goal with |- no_panic (bind ?r _) => assert (Hh : no_panic r) end.
+    { destruct (Nat.eqb (List.length ref) 0) eqn:E; simpl; auto.
+      destruct all; [now apply add_all_ok|].
+      destruct ref as [|r0 rt]; [discriminate|]. inversion Hc; subst. simpl.
+      destruct (indstr_reads_clean r0 ltac:(assumption)) as [n ->]. simpl. auto. }
+    match goal with |- no_panic (bind ?r _) => destruct r end; simpl in *; auto.
+    destruct (add_repo_loop true nil_slice all rname t); simpl in *; auto.
+  Qed.
+
+  Theorem add_repo_ok nil_slice all rname ind :
+    clean_entries (entries_of ind) -> no_panic (add_repo sorter true nil_slice all rname ind).
+  Proof.
+    intros Hc. unfold add_repo.
+    pose proof (sort_entries_ok (entries_of ind) Hc) as Hs.
+    destruct (sort_entries sorter (entries_of ind)) as [es| |]; simpl in *; auto.
+    now apply add_repo_loop_ok.
+  Qed.
 End I.
 
 (* ---------- the two repaired defects, on the pre-fix transcriptions ---------- *)
@@ -242,3 +275,17 @@ Proof.
   exists (mkRaw "v1" None), (mkRaw "v1" (Some [("a", [Some (Some (mkIMeta "a" "1.0.0" "v2"))])])).
   split; [reflexivity|exact merge_unguarded_panics].
 Qed.
+
+(* the guard `ref == nil` instead of `len(ref) == 0`: a name whose list is empty but not nil
+   (`a: []`, or only null / invalid entries that loadIndex removed) reaches ref[0] *)
+Lemma add_repo_nil_guard_panics :
+  is_panic (add_repo (fun l => l) false (fun _ => false) false "repo" (mkRaw "v1" (Some [("a", [])]))) = true.
+Proof. vm_compute. reflexivity. Qed.
+
+Lemma add_repo_nil_guard_refuted :
+  exists r : rawindex,
+    match load_index (fun _ => false) (fun l => l) true r with
+    | Ok i => is_panic (add_repo (fun l => l) false (fun _ => false) false "repo" i)
+    | _ => false
+    end = true.
+Proof. exists (mkRaw "v1" (Some [("a", [None; Some None; Some (Some (mkIMeta "a" "bad" ""))])])). vm_compute. reflexivity. Qed.
